@@ -18,17 +18,19 @@ ID = "C20"
 LEVEL = "exploration"
 RULE = (
     "Cases: (tok) one tokenizer used on stream 1 - complete list run, callback run, generator consumed to a drawn "
-    "depth k, or generator created and never advanced - then on stream 2, with stream 1 biased to end in each automaton "
+    "depth k, generator created and never advanced, or generator advanced k items, abandoned and closed in the middle of "
+    "the later run - then on stream 2, with stream 1 biased to end in each automaton "
     "state (open token, right after a cut, tolerated silence, initial phase); exhaustive over all pairs of patterns up "
     "to length L1/L2 for small parameter tuples, Hypothesis-generated beyond. (split) split() repeated 2-4 times on the "
     "same AudioRegion / bytes object / Recorder rewound between runs. (val) an AudioEnergyValidator judging a generated "
-    "sequence of windows, then window X. (buf) a buffer source read partially, closed, reopened. Oracle: second-use "
+    "sequence of windows, then window X. (buf) a buffer source read partially, closed (optionally: its position set while closed, then closed again), reopened. Oracle: second-use "
     "output == output of a fresh object with the same parameters (same frame objects for tokens; bytes and start for "
     "regions; same verdict; read restarts at sample 0). Non-trivial = the first use leaves the object away from its "
     "initial state (open token / continuation flag set / initial phase / unfinished generator / a region was found / "
     "previous verdict differs / cursor moved)."
 )
-MUST_HIT = ["first_open_token", "first_after_cut", "first_init_phase", "first_gen_partial", "first_gen_unstarted",
+MUST_HIT = ["abandoned_generator_closed_mid_run", "buffer_position_set_while_closed",
+            "first_open_token", "first_after_cut", "first_init_phase", "first_gen_partial", "first_gen_unstarted",
             "split_region", "split_bytes", "split_recorder", "validator", "buffer_reopen"]
 ASSUMPTIONS = ["fresh-object output is the reference (judged by C01-C07)"]
 BOUNDS = {"quick": dict(L1=6, L2=5, n=400), "thorough": dict(L1=8, L2=7, n=8000)}
@@ -80,11 +82,38 @@ def check_tok(case, rec):
                 break
         if got_n == first[1]:
             classes.add("first_gen_partial")
+    elif isinstance(first, list) and first[0] == "gen_close_mid":
+        # the abandoned generator is finalised (closed, as the garbage collector would do) in the
+        # middle of the later run
+        keep = tk.tokenize(s1, generator=True)
+        for _ in range(first[1]):
+            try:
+                next(keep)
+            except StopIteration:
+                break
+        classes.add("first_gen_partial")
+        classes.add("abandoned_generator_closed_mid_run")
     else:
         raise HarnessError(first)
     f2, _v, s2 = tok.make_stream(case["pat2"], kind)
     deliv = case.get("deliv", "list")
-    second = tok.deliver(tk, s2, deliv)
+    if isinstance(first, list) and first[0] == "gen_close_mid":
+        deliv = "gen"
+        g2 = tk.tokenize(s2, generator=True)
+        second = []
+        done = False
+        for _ in range(first[2]):
+            try:
+                second.append(next(g2))
+            except StopIteration:
+                done = True
+                break
+        keep.close()
+        keep = None
+        if not done:
+            second.extend(g2)
+    else:
+        second = tok.deliver(tk, s2, deliv)
     f3, v3, s3 = tok.make_stream(case["pat2"], kind)
     fresh = tok.deliver(tok.make_tokenizer(v3, p), s3, deliv)
 
@@ -179,11 +208,18 @@ def check_buf(case, rec):
         src.read(n)
     moved = src.position > 0
     src.close()
+    classes = {"buffer_reopen"}
+    if case.get("pos_closed") is not None and N:
+        # the cursor is moved while the source is closed; closing (again) must still return to the start
+        src.position = min(case["pos_closed"], N)
+        src.close()
+        classes.add("buffer_position_set_while_closed")
+        moved = True
     src.open()
     k = case["then"]
     got = src.read(k)
     want = data[: min(k, N) * bps] or None
-    rec.note(case, moved, {"buffer_reopen"}, out=None if got is None else len(got))
+    rec.note(case, moved, classes, out=None if got is None else len(got))
     if got != want:
         raise Violation(f"after close()/open() read({k}) did not restart at sample 0", case)
     fresh = BufferAudioSource(data, sr, sw, ch)
@@ -204,6 +240,8 @@ def explicit_cases():
         {"t": "tok", "pat1": "0111", "pat2": "011", "p": [3, 4, 1, 0, 0, 0], "first": "gen_unstarted", "kind": "char"},
         {"t": "tok", "pat1": "0101", "pat2": "1011", "p": [1, 4, 1, 2, 1, 0], "first": "cb", "kind": "bytes"},
         {"t": "tok", "pat1": "011", "pat2": "1", "p": [1, 3, 2, 0, 0, 4], "first": "list", "kind": "obj", "deliv": "gen"},
+        {"t": "tok", "pat1": "0110110", "pat2": "0110110011", "p": [1, 2, 0, 0, 0, 0], "first": ["gen_close_mid", 1, 1], "kind": "obj"},
+        {"t": "buf", "sr": 10, "sw": 2, "ch": 2, "N": 9, "salt": 1, "reads": [2], "then": 4, "pos_closed": 5},
         {"t": "split", "audio": a, "win": [2, 4, 1, False, False], "how": "region", "times": 3},
         {"t": "split", "audio": a, "win": [2, 4, 1, True, False], "how": "bytes", "times": 2},
         {"t": "split", "audio": a, "win": [1, 3, 0, False, True], "how": "recorder", "times": 4},
@@ -218,7 +256,8 @@ def strategy(draw):
     if t == "tok":
         p = draw(gen.tok_params(8))
         first = draw(st.one_of(st.sampled_from(["list", "cb", "gen_unstarted"]),
-                               st.tuples(st.just("gen"), st.integers(0, 3)).map(list)))
+                               st.tuples(st.just("gen"), st.integers(0, 3)).map(list),
+                               st.tuples(st.just("gen_close_mid"), st.integers(0, 2), st.integers(0, 2)).map(list)))
         return {"t": "tok", "pat1": draw(gen.pattern(p, 40)), "pat2": draw(gen.pattern(p, 40)), "p": p, "first": first,
                 "kind": draw(st.sampled_from(tok.KINDS)), "deliv": draw(st.sampled_from(tok.DELIVS))}
     if t == "split":
@@ -235,7 +274,8 @@ def strategy(draw):
     N = draw(st.integers(0, 30))
     return {"t": "buf", "sr": draw(st.sampled_from([8, 16000])), "sw": draw(st.sampled_from([1, 2, 4])),
             "ch": draw(st.integers(1, 3)), "N": N, "salt": draw(st.integers(0, 1000)),
-            "reads": draw(st.lists(st.integers(1, 10), max_size=4)), "then": draw(st.integers(1, 12))}
+            "reads": draw(st.lists(st.integers(1, 10), max_size=4)), "then": draw(st.integers(1, 12)),
+            "pos_closed": draw(st.one_of(st.none(), st.integers(1, 30)))}
 
 
 def _exh(p, L1, L2, lo, hi):
